@@ -94,6 +94,7 @@ std::string RunCsvFault(const vh::JVal& scn, const std::string& kind, long long 
 		if (streamIn) holder = MakeStream(kind == "failat" || kind == "throwat" ? kind : "short3", doc, static_cast<size_t>(k));
 		if (streamOut) { obuf = std::make_unique<FailingOutBuf>(kind == "ofailat" || kind == "othrowat" ? static_cast<size_t>(k) : static_cast<size_t>(-1), kind == "othrowat"); ostr = std::make_unique<std::ostream>(obuf.get()); }
 		liveBefore = AllocLive();
+		vh::ScopeRecordStart();
 		AllocArm(kind == "alloc" ? k : -1);
 		try
 		{
@@ -103,6 +104,7 @@ std::string RunCsvFault(const vh::JVal& scn, const std::string& kind, long long 
 			AllocDisarm();
 		}
 		catch (...) { allocsInCall = AllocSinceArm(); AllocDisarm(); exc = DescribeException(); }
+		vh::ScopeRecordStop();
 		rowsLoaded = loaded.size();
 		{ std::vector<Row>().swap(loaded); }
 		if (isSave && !streamOut) produced = outMem.size();
@@ -115,7 +117,7 @@ std::string RunCsvFault(const vh::JVal& scn, const std::string& kind, long long 
 	}
 	return "{\"kind\":\"" + kind + "\",\"k\":" + std::to_string(k) + ",\"save\":" + (isSave ? "true" : "false") + ",\"exc\":" + exc +
 		",\"leak\":" + std::to_string(liveAfter - liveBefore) + ",\"allocs\":" + std::to_string(allocsInCall) + ",\"produced\":" + std::to_string(produced) +
-		",\"hits\":" + std::to_string(faultHits) + ",\"streambad\":" + (streamBad ? "true" : "false") + ",\"rows\":" + std::to_string(rowsLoaded) + ",\"ev\":[" + Events() + "]}";
+		",\"hits\":" + std::to_string(faultHits) + ",\"streambad\":" + (streamBad ? "true" : "false") + ",\"rows\":" + std::to_string(rowsLoaded) + ",\"ev\":[" + Events() + "],\"sc\":" + vh::ScopeEventsJson() + "}";
 }
 
 }
